@@ -387,6 +387,40 @@ def r15_1_rewriters_stop_at_locked(ctx: Ctx) -> None:
                     else:
                         run.ok("R15.1", inst, {"kinds_at_descent": sorted(c.name for c in cls_now)})
                     break
+        # a loop that walks down the tree by re-binding a name to its own child visits nodes the paths above never see
+        # (loops are unrolled once): the lock test must be inside the loop
+        for loop in [n for n in ast.walk(f.node) if isinstance(n, (ast.While, ast.For))]:
+            child_of: dict[str, str] = {}
+            for n in ast.walk(loop):
+                if isinstance(n, ast.Assign) and len(n.targets) == 1 and isinstance(n.targets[0], ast.Name):
+                    ch = attr_chain(n.value) if isinstance(n.value, ast.Attribute) else None
+                    if ch and len(ch) >= 2 and ch[1] in ("target", "lhs", "rhs"):
+                        child_of[n.targets[0].id] = ch[0]
+            walkers = set()
+            for n in ast.walk(loop):
+                if isinstance(n, ast.Assign) and len(n.targets) == 1 and isinstance(n.targets[0], ast.Name):
+                    x = n.targets[0].id
+                    if child_of.get(x) == x or (isinstance(n.value, ast.Name) and child_of.get(n.value.id) == x):
+                        walkers.add(x)
+            for x in sorted(walkers):
+                names = {x} | {c for c, par in child_of.items() if par == x}
+                tests = [loop.test] if isinstance(loop, ast.While) else []
+                for n in ast.walk(loop):
+                    if isinstance(n, ast.If) and n.body and isinstance(n.body[-1], (ast.Return, ast.Break, ast.Raise)):
+                        tests.append(n.test)
+                guarded = any(isinstance(a, ast.Attribute) and a.attr == "is_locked" and isinstance(a.value, ast.Name) and a.value.id in names for t in tests for a in ast.walk(t))
+                inst = f"{f.module.rel}:{f.qualname}:loop:{x}"
+                if guarded:
+                    run.ok("R15.1", inst)
+                else:
+                    run.fail(
+                        "R15.1",
+                        inst,
+                        f"{f.qualname} walks down the tree in a loop (`{x}` is re-bound to its own child) without testing `is_locked` of each node it steps to: only the node the loop starts at "
+                        "is checked, so a leaf or materialization further down is walked through and the subtree above it is rewritten or dropped",
+                        fi=f,
+                        node=loop,
+                    )
         if descents == 0 and f.qualname != "Engine.backtrack_unary" or (descents == 0 and f.module.rel == IT_ENGINE):
             raise AnalysisError(f"{f.key} no longer descends into its relation: not a rewriter any more")
     # the base engine's backtrack_unary hands the tree back untouched
@@ -722,6 +756,12 @@ def r17_conform(ctx: Ctx, rules: tuple[str, str, str] = ("R17.1", "R17.2", "R17.
                 tests = sorted(src(x) for x in n.value.values)
                 if tests == sorted(["isinstance(skip_to, BinaryOperationRelation)", "isinstance(skip_to.operation, Chain)"]):
                     ok = default_false = True
+    if not (ok and default_false):
+        # ... or handed to the constructor as that expression
+        for c in iter_calls(ask.node):
+            v = kw(c, "is_compound") if (dotted(c.func) or "") in ("cls", "Select") else None
+            if isinstance(v, ast.BoolOp) and isinstance(v.op, ast.And) and sorted(src(x) for x in v.values) == sorted(["isinstance(skip_to, BinaryOperationRelation)", "isinstance(skip_to.operation, Chain)"]):
+                ok = default_false = True
     if ok and default_false:
         run.ok(r3, "apply_skip:is_compound")
     else:
